@@ -35,6 +35,7 @@ type Prog struct {
 	gconst    map[*ssa.Global]bool
 	recTemplates map[string]*recTemplate
 	mu        sync.Mutex
+	nonlinearDef map[string]bool
 }
 
 func pkgKeyOf(path string) (string, bool) {
